@@ -221,7 +221,7 @@ func judge(r *lib.Run, c *Case, op string, res result, rerun func() result) resu
 	// direct oracle, stated on the real code only
 	check := func(x result) (string, string) {
 		if x.timedOut {
-			bound := time.Duration(c.T+30+1000)*time.Millisecond + 2500*time.Millisecond
+			bound := time.Duration(c.T+30+1000)*time.Millisecond + 4000*time.Millisecond
 			if x.elapsed > bound {
 				return "timeout-reported-too-late", fmt.Sprintf("timeout %d ms, reported after %v (generous bound %v)", c.T, x.elapsed, bound)
 			}
@@ -289,7 +289,7 @@ func process1(r *lib.Run, op string, first *result) {
 }
 
 func genCase(g *lib.Rng) *Case {
-	c := &Case{T: lib.Pick(g, []int{700, 1000, 1500})}
+	c := &Case{T: lib.Pick(g, []int{2000, 2500, 3000})} // early exits are at most 200 ms: >= 1.8 s of margin for start-up latency
 	early := func() int { return lib.Pick(g, []int{0, 100, 200}) } // well before every deadline
 	c.LeaderAt = early()
 	if g.Chance(50) {
@@ -330,7 +330,7 @@ func main() {
 		}
 	}
 	// fixed shapes first: the ones the property names
-	for _, t := range []int{700, 1200} {
+	for _, t := range []int{2000, 2600} {
 		add((&Case{T: t, LeaderAt: never}).op("x"))                                                             // plain timeout
 		add((&Case{T: t, LeaderAt: never, LeaderIgn: true}).op("x"))                                            // ignores SIGTERM
 		add((&Case{T: t, LeaderAt: never, LeaderIgn: true, Children: []Child{{never, true, true}}}).op("x"))    // TERM-ignoring tree holding the pipes
@@ -345,7 +345,7 @@ func main() {
 		add(c.op("x"))
 	}
 	// run in parallel batches; anything that looks off is re-run alone afterwards
-	par := 6
+	par := 8
 	firsts := make([]result, len(ops))
 	var wg sync.WaitGroup
 	sem := make(chan struct{}, par)
